@@ -35,7 +35,7 @@ func run(c *vk.Ctx) {
 		return
 	}
 	defer srv.Close()
-	sem.RunCases(c, srv, "mem", c.Pick(80, 800), gen.Options{WideEvery: 4, AlgebraEvery: 5}, 0, 12, func(i int, r *rand.Rand, p *sem.Prepared, _ []*openfgav1.TupleKey) {
+	sem.RunCases(c, srv, "mem", c.Pick(80, 800), gen.Options{WideEvery: 4, AlgebraEvery: 5, HierarchyEvery: 6}, 0, 12, func(i int, r *rand.Rand, p *sem.Prepared, _ []*openfgav1.TupleKey) {
 		oneCase(c, i, r, p, srv)
 	})
 }
